@@ -4,7 +4,7 @@ the step bound and deadlock freedom.  See `Proofs/DbCacheSpec.lean` for the voca
 
 Helper files: `DbCacheInvMeasure` (step bound), `DbCacheInvBase` (per-process invariant `PInv`, lock regions
 `inLock`, the "has only seen the initial file" predicate `PreW`, specs of the local programs),
-`DbCacheInvStep` (`StepIn ⟹ StepOut` for every action and for a kill).
+`DbCacheInvStep` (`StepIn ⟹ StepOut` for every action, for a kill and for an I/O error).
 
 The invariant `Inv`:
   * every process satisfies `PInv` (answers/memory correct, `keys answers ++ todo = asked`, and a fact per
@@ -12,7 +12,9 @@ The invariant `Inv`:
   * a process is inside a lock region iff it is the lock holder (mutual exclusion);
   * a non-atomic writer about to dump sees the file missing or empty (nobody else writes in between);
   * the file is missing or mergeable (`FileGood`), OR it still is the initial file and — if the writer merges —
-    every process has so far only seen the initial file (`PreW`), so nobody merges it before it was validated.
+    every process has so far only seen the initial file (`PreW`: it is still in front of the load, or on a path
+    — stale or exception handler — that ends with removing the file), so nobody merges it before it was
+    validated (trusted after the fingerprint comparison) or removed.
 -/
 import SpsdkVerif.Proofs.DbCacheSpec
 import SpsdkVerif.Proofs.DbCacheInvMeasure
@@ -26,13 +28,14 @@ theorem pstep_measure (env : Env) (G : Guards) (i : Nat) (sh sh' : Sh) (p p' : P
     (h : pstep env G i sh p = some (sh', p')) : p'.measure < p.measure :=
   pstep_measure_aux env G i sh sh' p p' h
 
-theorem gstep_measure (env : Env) (G : Guards) (s s' : St) (l : Lbl)
+theorem gstep_measure (env : Env) (G : Guards) (s s' : St) (l : Lbl) (hl : l.isWipe = false)
     (h : gstep env G s l = some s') : s'.totalMeasure < s.totalMeasure :=
-  gstep_measure_aux env G s s' l h
+  gstep_measure_aux env G s s' l hl h
 
 /-- a schedule is never longer than the initial bound -/
 theorem sched_length_le (env : Env) (G : Guards) (s s' : St) (sched : List Lbl)
-    (h : runSched env G s sched = some s') : sched.length + s'.totalMeasure ≤ s.totalMeasure :=
+    (h : runSched env G s sched = some s') :
+    (sched.filter (fun l => !l.isWipe)).length + s'.totalMeasure ≤ s.totalMeasure :=
   sched_length_le_aux env G s s' sched h
 
 end SpsdkVerif.DbCache
@@ -179,7 +182,8 @@ theorem Inv.init (queries : List (List Nat)) : Inv env G f0 queries (initSt G f0
   · simp [initSt, initProc, Function.comp_def]
 
 theorem Inv.gstep (hw : WF G) (he : EnvOK env G) (h0 : FileSafe env G f0) {s s' : St} {l : Lbl}
-    (hinv : Inv env G f0 queries s) (h : gstep env G s l = some s') : Inv env G f0 queries s' := by
+    (hinv : Inv env G f0 queries s) (hl : l.isWipe = false) (h : gstep env G s l = some s') :
+    Inv env G f0 queries s' := by
   unfold DbCache.gstep at h
   split at h
   · split at h
@@ -198,9 +202,19 @@ theorem Inv.gstep (hw : WF G) (he : EnvOK env G) (h0 : FileSafe env G f0) {s s' 
       · rename_i sh' p' hs
         simp only [Option.some.injEq] at h; subst h
         exact hinv.lift hp (crashStep_out he (hinv.stepIn h0 hp) hs)
+  · split at h
+    · cases h
+    · rename_i p hp
+      split at h
+      · cases h
+      · rename_i sh' p' hs
+        simp only [Option.some.injEq] at h; subst h
+        exact hinv.lift hp (failStep_out hw he (hinv.stepIn h0 hp) hs)
+  · simp [Lbl.isWipe] at hl
 
 theorem Inv.run (hw : WF G) (he : EnvOK env G) (h0 : FileSafe env G f0) {s s' : St} {sched : List Lbl}
-    (hinv : Inv env G f0 queries s) (h : runSched env G s sched = some s') : Inv env G f0 queries s' := by
+    (hinv : Inv env G f0 queries s) (hnw : ∀ l ∈ sched, l.isWipe = false)
+    (h : runSched env G s sched = some s') : Inv env G f0 queries s' := by
   induction sched generalizing s with
   | nil => simp only [runSched, Option.some.injEq] at h; subst h; exact hinv
   | cons l ls ih =>
@@ -208,7 +222,8 @@ theorem Inv.run (hw : WF G) (he : EnvOK env G) (h0 : FileSafe env G f0) {s s' : 
     split at h
     · cases h
     · rename_i s1 hs1
-      exact ih (hinv.gstep hw he h0 hs1) h
+      exact ih (hinv.gstep hw he h0 (hnw l (List.mem_cons_self ..)) hs1)
+        (fun l' hl' => hnw l' (List.mem_cons_of_mem _ hl')) h
 
 theorem answers_eq {env : Env} (l : List (Nat × Nat)) (h : ∀ a ∈ l, EntOK env a) :
     l = disabledAnswers env (keys l) := by
@@ -267,9 +282,10 @@ theorem gstep_run_isSome (env : Env) (G : Guards) (s : St) (i : Nat) (p : Proc) 
 theorem sched_Inv (env : Env) (G : Guards) (measured : List Exc)
     (hG : wfGuards G = true) (hP : PickleOK env measured) (hM : coversMeasured G measured = true)
     (f0 : Option Bytes) (h0 : FileSafe env G f0) (queries : List (List Nat))
-    (sched : List Lbl) (s : St) (hrun : runSched env G (initSt G f0 queries) sched = some s) :
+    (sched : List Lbl) (hnw : ∀ l ∈ sched, l.isWipe = false)
+    (s : St) (hrun : runSched env G (initSt G f0 queries) sched = some s) :
     Inv env G f0 queries s :=
-  (Inv.init queries).run (WF.of G hG) (EnvOK.of hP hM) h0 hrun
+  (Inv.init queries).run (WF.of G hG) (EnvOK.of hP hM) h0 hnw hrun
 
 end SpsdkVerif.DbCache.Sched
 
@@ -280,9 +296,10 @@ open SpsdkVerif Sched
 theorem sched_inv (env : Env) (G : Guards) (measured : List Exc)
     (hG : wfGuards G = true) (hP : PickleOK env measured) (hM : coversMeasured G measured = true)
     (f0 : Option Bytes) (h0 : FileSafe env G f0) (queries : List (List Nat))
-    (sched : List Lbl) (s : St) (hrun : runSched env G (initSt G f0 queries) sched = some s) :
+    (sched : List Lbl) (hnw : ∀ l ∈ sched, l.isWipe = false)
+    (s : St) (hrun : runSched env G (initSt G f0 queries) sched = some s) :
     (∀ p ∈ s.procs, ProcSafe env p) ∧ FileSafe env G s.sh.file ∧ s.procs.map (·.asked) = queries := by
-  have hinv := sched_Inv env G measured hG hP hM f0 h0 queries sched s hrun
+  have hinv := sched_Inv env G measured hG hP hM f0 h0 queries sched hnw s hrun
   refine ⟨?_, hinv.harmless h0, hinv.asked⟩
   intro p hp
   obtain ⟨j, hj⟩ := List.mem_iff_getElem?.mp hp
@@ -292,10 +309,11 @@ theorem sched_inv (env : Env) (G : Guards) (measured : List Exc)
 theorem sched_progress (env : Env) (G : Guards) (measured : List Exc)
     (hG : wfGuards G = true) (hP : PickleOK env measured) (hM : coversMeasured G measured = true)
     (f0 : Option Bytes) (h0 : FileSafe env G f0) (queries : List (List Nat))
-    (sched : List Lbl) (s : St) (hrun : runSched env G (initSt G f0 queries) sched = some s)
+    (sched : List Lbl) (hnw : ∀ l ∈ sched, l.isWipe = false)
+    (s : St) (hrun : runSched env G (initSt G f0 queries) sched = some s)
     (hlive : ∃ p ∈ s.procs, p.pc.terminal = false) :
     ∃ i, (gstep env G s (.run i)).isSome = true := by
-  have hinv := sched_Inv env G measured hG hP hM f0 h0 queries sched s hrun
+  have hinv := sched_Inv env G measured hG hP hM f0 h0 queries sched hnw s hrun
   obtain ⟨p, hp, hpl⟩ := hlive
   cases hl : s.sh.lock with
   | none =>
